@@ -10,7 +10,7 @@ use super::{chk, finish, harness};
 use crate::{BackpressurePolicy, Dispatcher, DroppableStore, Effect, StoreImpl, Subscriber};
 use std::sync::atomic::Ordering;
 use std::sync::Arc;
-use std::time::Instant;
+use super::rt::Instant;
 
 pub static mut PH2: [[[PhRec; 3]; MAXA]; 2] = [[[PH0; 3]; MAXA]; 2];
 pub static mut NEED2: [[bool; MAXA]; 2] = [[false; MAXA]; 2];
